@@ -25,7 +25,9 @@ PD(p, name, default) == IF Has(p, name) THEN P(p, name) ELSE default
 
 Cells(a) == a[2]
 NCells(ins) == Len(Cells(ins[1]))
-SameShape(ins) == \A i \in 1..Len(ins) : Len(Cells(ins[i])) = NCells(ins)
+\* an array may carry its shape as a third component (otherwise it is one-dimensional)
+ShapeOf(a) == IF Len(a) >= 3 THEN a[3] ELSE <<Len(Cells(a))>>
+SameShape(ins) == \A i \in 1..Len(ins) : ShapeOf(ins[i]) = ShapeOf(ins[1])
 Col(ins, j) == [i \in 1..Len(ins) |-> Cells(ins[i])[j]]
 Each(ins, f(_)) == [j \in 1..NCells(ins) |-> f(Col(ins, j))]
 Each1(a, f(_)) == [j \in 1..Len(Cells(a)) |-> f(Cells(a)[j])]
